@@ -127,6 +127,20 @@ class ExternalOptimizer(Optimizer):
                 with contextlib.suppress(subprocess.TimeoutExpired):
                     process.wait(_PROCESS_TIMEOUT)
 
+                # If the process exited before the abort message could be sent,
+                # the stored exception must still be raised:
+                if exception is not None:
+                    raise exception
+
+                # The process terminates with an exit code of zero, also after
+                # an abort. Anything else means that it died abnormally:
+                if process.returncode != 0:
+                    msg = (
+                        "The external optimizer process terminated abnormally, "
+                        f"return code: {process.returncode}"
+                    )
+                    raise RuntimeError(msg)
+
     @property
     def allow_nan(self) -> bool:
         """Whether NaN is allowed.
